@@ -295,7 +295,27 @@ func (c *Ctx) checkCase(text string, kind string, extra map[string]any) *CaseInf
 
 // typeEdits: the type-breaking edits of C17's quantifier, applied to the generator's tree.
 func typeEdits(g *Gen, prog *GProgram, r *Rand) string {
-	switch r.Intn(9) {
+	switch r.Intn(10) {
+	case 9: // + or - on operands that are neither numbers nor monetaries, in a position that accepts any type
+		mk := func() *GExpr {
+			switch r.Intn(4) {
+			case 0:
+				return &GExpr{Kind: XString, S: "a"}
+			case 1:
+				return acct(r.Pick(accountPool))
+			case 2:
+				return &GExpr{Kind: XAsset, S: "USD"}
+			}
+			return g.ratio(bi(1), bi(2))
+		}
+		bad := &GExpr{Kind: XInfix, Op: r.Pick([]string{"+", "-"}), A: mk(), B: mk()}
+		j := r.Intn(len(prog.Stmts) + 1)
+		call := &GFnCall{Name: "set_tx_meta", Args: []*GExpr{{Kind: XString, S: "k"}, bad}}
+		if r.Chance(1, 3) {
+			call = &GFnCall{Name: "set_account_meta", Args: []*GExpr{acct("a"), {Kind: XString, S: "k"}, bad}}
+		}
+		prog.Stmts = append(prog.Stmts[:j:j], append([]*GStmt{{Kind: StCall, Call: call}}, prog.Stmts[j:]...)...)
+		return "infix-of-non-numbers"
 	case 7:
 		if selfOrigin(prog, r) {
 			return "self-origin"
@@ -479,6 +499,7 @@ func init() {
 			c.checkCase(c.replay.Text, "ccase", c.replay.Extra)
 			return
 		}
+		c.checkCase(kitchenSink, "ccase", map[string]any{"edit": "corpus"})
 		root := NewRand(c.seed)
 		n := c.size(400, 20000)
 		for i := 0; i < n; i++ {
